@@ -438,6 +438,20 @@ impl<'a, T: Read + Write + Seek> PointCloudWriter<'a, T> {
                 ))?
             }
 
+            // Ensure that integer values are inside the range of the prototype,
+            // everything else cannot be stored with the number of bits reserved for this record
+            if let (
+                RecordDataType::Integer { min, max } | RecordDataType::ScaledInteger { min, max, .. },
+                RecordValue::Integer(int) | RecordValue::ScaledInteger(int),
+            ) = (&p.data_type, value)
+            {
+                if int < min || int > max {
+                    Error::invalid(format!(
+                        "Value {int} at index {i} is outside of the range from {min} to {max} defined by the prototype"
+                    ))?
+                }
+            }
+
             // Update cartesian bounds
             if p.name == RecordName::CartesianX
                 || p.name == RecordName::CartesianY
